@@ -44,7 +44,7 @@ Print Assumptions C16_rle_analyze_meta.
 (* the reported count is the number of elements decoding yields *)
 Theorem C16_rle_count_is_decoded : forall xs tl,
   Forall (fun x => x < 18446744073709551616) xs -> N.of_nat (length xs) < 18446744073709551616 ->
-  rle_decode_with_header (fst (rle_encode_with_header xs) ++ tl) (N.of_nat (length xs)) = ROk xs.
+  rle_decode_with_header (fst (rle_encode_with_header xs) ++ tl) (N.of_nat (length xs)) = RleOk xs.
 Proof. exact rle_header_roundtrip_full. Qed.
 Print Assumptions C16_rle_count_is_decoded.
 
@@ -74,7 +74,7 @@ Print Assumptions C16_rle_get_run_count_header.
 
 (* varintDictGetStats (integer fields): uniqueCount, totalCount, totalBytes =
    the predicted = written size, originalBytes *)
-Theorem C16_dict_stats : forall xs d, dict_build xs = BuildOk d ->
+Theorem C16_dict_stats : forall xs d, dict_build xs = DictBuildOk d ->
   exists dictBytes indexBytes,
     dict_get_stats xs = Some (N.of_nat (length (dict_values_of xs)), N.of_nat (length xs),
                               dictBytes, indexBytes, dict_encoded_size xs, mul64 (N.of_nat (length xs)) 8) /\
